@@ -9,7 +9,7 @@ import os
 
 import h5py
 
-from vm import snap
+from vm import gen, snap
 from vm.ctx import Violation
 from vm.checks import _hdf5
 
@@ -33,7 +33,7 @@ ASSUMPTIONS = [
     'wall-clock window of the write call (only time-related oracle)',
 ]
 ANCHORS = ['Table.to_hdf5', 'Table.from_hdf5', 'general_formatter', 'vlen_list_of_str_formatter', 'general_parser', 'vlen_list_of_str_parser', 'load_table', 'parse_biom_table', 'save_table', 'biom_open']
-REQUIRED = ['ragged_metadata_cases', 'loader_load_table_handle', 'format_fs_writes', 'parse_fs_reads', 'loader_load_table', 'loader_parse_table', 'loader_from_hdf5',
+REQUIRED = ['tables_read_from_subgroups', 'ragged_metadata_cases', 'loader_load_table_handle', 'format_fs_writes', 'parse_fs_reads', 'loader_load_table', 'loader_parse_table', 'loader_from_hdf5',
             'loader_from_hdf5_observation_view', 'files_written',
             'layout_csc_seen', 'layout_unsorted_seen', 'nonascii_ids',
             'slash_in_ids_or_categories', 'group_metadata_checked',
@@ -93,9 +93,53 @@ def compare_loaded(ctx, name, t2, src, cfg, wr, desc):
             ctx.count('group_metadata_checked')
 
 
+def subgroup_case(ctx, index, r):
+    """to_hdf5 writes into any HDF5 group and from_hdf5 reads from one:
+    several tables kept in the groups of one file come back each as it
+    was."""
+    k = r.randint(2, 3)
+    specs = [gen.gen_spec(r, max_n=5, max_m=5,
+                          md_kinds=['none', 'text', 'int', 'taxonomy'],
+                          value_classes=['count', 'frac', 'neg', 'huge'])
+             for _ in range(k)]
+    tabs = [gen.apply_layout(ctx.biom, sp, r.choice(gen.LAYOUTS), r)
+            for sp in specs]
+    srcs = [snap.snap(t) for t in tabs]
+    for sn in srcs:
+        why = _hdf5.in_c01_domain(sn)
+        if why:
+            ctx.skip('subgroup case: ' + why)
+            return
+    names = ['tables/t%d é' % q if q % 2 else 'grp%d' % q for q in range(k)]
+    desc = {'groups': names, 'tables': [sp.describe() for sp in specs]}
+    path = ctx.path('c01grp%d.biom' % index)
+    try:
+        with h5py.File(path, 'w') as f:
+            for nm, t in zip(names, tabs):
+                t.to_hdf5(f.create_group(nm), 'vm',
+                          compress=r.random() < .5)
+        with h5py.File(path, 'r') as f:
+            order = list(range(k))
+            r.shuffle(order)
+            for q in order:
+                t2 = ctx.biom.Table.from_hdf5(f[names[q]])
+                d = snap.diff(snap.snap(t2), srcs[q])
+                if d:
+                    raise Violation('C01/roundtrip-differs/subgroup',
+                                    'table in group %r: %s; case=%r' %
+                                    (names[q], '; '.join(d), desc))
+                ctx.count('tables_read_from_subgroups')
+    finally:
+        if os.path.exists(path):
+            os.remove(path)
+    ctx.case(desc, True)
+
+
 def run_case(ctx, index):
     if index % 29 == 11:
         return _hdf5.ragged_case(ctx, index, ctx.rng(index), 'C01')
+    if index % 31 == 17:
+        return subgroup_case(ctx, index, ctx.rng(index))
     g = _hdf5.gen_case(ctx, index)
     if g is None:
         return
